@@ -77,9 +77,10 @@ Proof.
   - destruct (amt =? 0); [inversion H; reflexivity|].
     destruct (bal_get l (treasury tid) denom <? amt); [discriminate|].
     inversion H; subst. rewrite !bal_get_add_other by congruence. reflexivity.
-  - destruct (method =? 1); [|discriminate].
-    destruct (two256 <=? _); [discriminate|]. inversion H; subst.
-    rewrite !bal_get_add_other by congruence. reflexivity.
+  - destruct (method =? 1).
+    + destruct (two256 <=? _); [discriminate|]. inversion H; subst.
+      rewrite !bal_get_add_other by congruence. reflexivity.
+    + destruct (method =? 4); [|discriminate]. inversion H; reflexivity.
 Qed.
 
 (* native payout: the treasury is debited by exactly what the recipient receives *)
